@@ -10,6 +10,7 @@ import (
 	"bytes"
 	"errors"
 	"fmt"
+	"net"
 	"runtime"
 	"sort"
 	"strings"
@@ -191,6 +192,7 @@ type clientEngine struct {
 	lossPct, dupPct, corruptPct, spontPct int
 	writeFailPct, readFailPct             int
 	closeErrConn, closeErrAgent           bool
+	connCloseErr                          error
 	bigPct                                int
 	avoidKnown                            bool
 	closePct                              int
@@ -227,6 +229,8 @@ type clientEngine struct {
 	armedWriteFail      int
 	armedReadFail       int
 	armedAgentStartFail int
+	armedWriteBlock     int
+	writeBlocksLeft     int
 
 	phase           int
 	callers         []*verifrt.Task
@@ -500,6 +504,11 @@ func (c *simConn) Read(b []byte) (int, error) {
 		d := e.inbox[0]
 		e.inbox = e.inbox[1:]
 		n := copy(b, d.data)
+		if n < len(d.data) && len(d.data) <= 1024 {
+			// C12 quantifies over datagrams up to the client's 1024-byte read buffer:
+			// such a datagram must reach the decoder whole
+			e.fail(nil, "C12", "read-buffer-too-small", "the reader offered a %d-byte buffer for a %d-byte datagram (%s): datagrams up to 1024 bytes must be read whole", len(b), len(d.data), d.kind)
+		}
 		if n < len(d.data) {
 			// the reader's buffer is smaller than the datagram: what it sees is the truncation
 			d = &cDatagram{data: append([]byte(nil), d.data[:n]...), kind: d.kind + "+truncated-by-read"}
@@ -599,6 +608,23 @@ func (c *simConn) Write(b []byte) (int, error) {
 		e.r.Logf("write: injected failure")
 		return 0, errInjWrite
 	}
+	if e.armedWriteBlock > 0 && !c.closed && !e.noConnClose && w.trigger == nil && tk != nil && len(e.cbStack[tk.ID]) == 0 && strings.HasPrefix(tk.Name, "C") {
+		// (only a caller's own first write: a retransmission blocked for ever
+		// inside the collector goroutine would keep Close waiting for the
+		// collector - the property's preconditions do not cover writes that never
+		// return, see DESIGN 14)
+		// a write that blocks (full socket buffer, peer not reading) until the
+		// connection is closed, and then fails
+		e.armedWriteBlock--
+		e.stats["fault_write_blocks_until_conn_closed"]++
+		e.r.Logf("write: blocks until the connection is closed")
+		if tx != nil {
+			tx.writeFailed = true
+			tx.writes[len(tx.writes)-1].ok = false
+		}
+		e.r.Sim.BlockUntil("write-blocked", hsWrite, func() bool { return c.closed })
+		return 0, errConnClosed
+	}
 	if c.closed {
 		return 0, errConnClosed
 	}
@@ -630,7 +656,7 @@ func (c *simConn) Close() error {
 	c.closed = true
 	if e.closeErrConn {
 		e.stats["fault_conn_close_error"]++
-		return errInjConnClose
+		return e.connCloseErr
 	}
 	return nil
 }
@@ -1506,7 +1532,7 @@ func (e *clientEngine) doClose2(tk *verifrt.Task, viaFinalizer bool) {
 		wantAgent = errInjAgentClose
 	}
 	if e.closeErrConn && !e.noConnClose {
-		wantConn = errInjConnClose
+		wantConn = e.connCloseErr
 	}
 	if viaFinalizer {
 		// no return value to judge
@@ -1594,7 +1620,10 @@ func (e *clientEngine) Setup(r *Run) {
 		e.manual = true // simulated clock and collector
 		e.collNoWait = r.Pct(25, "collector-nowait")
 	case 3:
-		e.skew = time.Hour // custom clock (one hour behind the ticker's own time) over the real ticker collector
+		e.skew = time.Hour // custom clock (one hour behind or ahead of the ticker's own time) over the real ticker collector
+		if r.Pct(50, "skew-ahead") {
+			e.skew = -time.Hour
+		}
 	}
 	e.noConnClose = r.Pct(25, "noconnclose")
 	e.noRetransmit = r.Pct(20, "noretransmit")
@@ -1617,11 +1646,15 @@ func (e *clientEngine) Setup(r *Run) {
 	e.writeFailPct = []int{0, 0, 5, 20}[r.Choose(4, "wfail")]
 	e.readFailPct = []int{0, 0, 5, 20}[r.Choose(4, "rfail")]
 	e.closeErrConn = r.Pct(15, "closeerr-conn")
+	// what a connection's Close may return: a custom error, or the errors the
+	// standard library returns for a connection that is already closed
+	e.connCloseErr = []error{errInjConnClose, net.ErrClosed, &net.OpError{Op: "close", Net: "udp", Err: net.ErrClosed}}[r.Choose(3, "closeerr-kind")]
 	e.closeErrAgent = r.Pct(15, "closeerr-agent")
 	e.bigPct = []int{0, 5, 30}[r.Choose(3, "bigpct")]
 	e.closePct = []int{0, 1, 3}[r.Choose(3, "closepct")]
 	e.avoidKnown = false // no open known finding needs its precondition avoided
 	e.spontLeft = 12
+	e.writeBlocksLeft = r.Choose(3, "write-blocks")
 	e.chaosCap = 3000
 	switch prof {
 	case "C11":
@@ -1836,6 +1869,9 @@ func (e *clientEngine) Env() []EnvEvent {
 		if e.writeFailPct > 0 && e.armedAgentStartFail == 0 {
 			ev = append(ev, EnvEvent{Name: "arm-agent-reregistration-failure", Weight: 1, Do: func() { e.armedAgentStartFail = 1 }})
 		}
+		if e.writeFailPct > 0 && e.armedWriteBlock == 0 && e.writeBlocksLeft > 0 && !e.noConnClose {
+			ev = append(ev, EnvEvent{Name: "arm-write-block", Weight: 1, Do: func() { e.armedWriteBlock = 1; e.writeBlocksLeft-- }})
+		}
 		if e.readFailPct > 0 && e.armedReadFail == 0 {
 			ev = append(ev, EnvEvent{Name: "arm-read-failure", Weight: 1, Do: func() { e.armedReadFail = 1 }})
 		}
@@ -1959,6 +1995,15 @@ func (e *clientEngine) Quiescent() bool {
 				e.r.Logf("heal round %d: clock now=%v", e.healRounds, e.vnow().Sub(baseTime))
 				return true
 			}
+		}
+		if inc := e.incomplete(); len(inc) > 0 && e.idleRounds >= 3 && !e.closeBegan && e.viol == nil && e.rto0 != 0 {
+			// the client is open, no faults flow any more, the clock was pushed past
+			// every possible deadline three times over with a tick each time, and
+			// nothing happened: the timeout of this transaction is never delivered
+			t := inc[0]
+			e.fail(t, "C10", "timeout-never-delivered", "%s is still in flight although the clock (now %v) has passed each of its possible deadlines several times, with collector ticks, while the client is open (writes %d)",
+				t.name(), e.vnow().Sub(baseTime), len(t.writes))
+			return true
 		}
 		if !e.closeBegan && e.viol == nil {
 			// nothing is runnable and Close was never called: the reader must
